@@ -147,7 +147,7 @@ theorem renderLaw_of_domain_FE (f : Field) (v : Val) (h : fieldInDomain f v = tr
 
 /-- **C01 for layouts with floats in either notation: read-back and text stability.** For every
 layout and value list admitted by `Spec.C01.inDomain` whose non-missing floats are finite
-doubles below `2^1013` in F-notation fields of at most 323 decimals, or zero or normal doubles
+doubles (any of them) in F-notation fields of at most 323 decimals, or zero or normal doubles
 (`2^-1022` and more) in E-notation fields (at most twelve decimals, by the domain): the model's write /
 read / re-write cycle succeeds, the values read back are the canonical forms, and the
 re-written text is identical to the written one. -/
@@ -225,7 +225,7 @@ theorem clauses_FE (f : Field) (v : Val) (r : List Char) (hd : fieldInDomain f v
       exact Proofs.FloatEZero.floatClauses_E_zero f dec fmt c hk hfmt hsep neg e d hd k
 
 /-- **C01 in full, floats in either notation.** For every layout and value list admitted by
-`Spec.C01.inDomain` whose non-missing floats are finite doubles below `2^1013` in F-notation
+`Spec.C01.inDomain` whose non-missing floats are finite doubles (any of them) in F-notation
 fields of at most 323 decimals, or zero or normal doubles (`2^-1022` and more) in
 E-notation fields: the model's write / read / re-write cycle satisfies the whole of
 `Spec.C01.holds` —
